@@ -3,7 +3,7 @@
    markers removed (strip_markers: the declarative scanner also used by the check's oracle 6). *)
 From Coq Require Import List Arith Bool Lia NArith.
 From Coq.Strings Require Import Byte.
-From Verif Require Import Base.Bytes Gen.FileManager Gen.FileManagerFacts Gen.Determinism Corr.C12.
+From Verif Require Import Base.Bytes Gen.FileManager Gen.FileManagerFacts Gen.Determinism Gen.FileManagerOrder Corr.C12.
 Import ListNotations.
 
 Lemma span_fst_all (p : byte -> bool) s : forallb p (fst (span p s)) = true.
@@ -129,13 +129,16 @@ Proof.
   apply G; [intros mk Hin; eapply found_markers_wf; exact Hin | intros k v []].
 Qed.
 
+Lemma marker_pairs_listed P : marker_pairs P -> marker_pairs (listed_pairs P).
+Proof. intros H k v Hin. apply H, In_listed, Hin. Qed.
+
 (* one file without patches: markers removed, everything else unchanged *)
 Theorem build_one_no_patches m name content :
   patches_of m name = [] -> build_one m (name, content) = (name, strip_markers 0 content).
 Proof.
   intro Hp. unfold build_one. rewrite Hp. cbn [fold_left]. f_equal. unfold replace.
-  apply replace_is_strip; [apply init_pairs_marker_pairs|].
-  intros mk Hin. apply found_marker_is_key. exact Hin.
+  apply replace_is_strip; [apply marker_pairs_listed, init_pairs_marker_pairs|].
+  intros mk Hin. rewrite lookup_listed. apply found_marker_is_key. exact Hin.
 Qed.
 
 (* histories without patch items never record a patch *)
